@@ -22,12 +22,12 @@ LEAVES = "cryptographic leaves idealised (tokens): a tag matches only for the se
 
 PROPS = {
     "C01": {
-        "modules": ["CC.Props.C01"], "campaigns": [hist("C01", BOTH)],
+        "modules": ["CC.Props.C01", "CC.Props.NonVacuity"], "campaigns": [hist("C01", BOTH)],
         "level_text": "Lean theorems over the executable model: points of `combine`, rights as permutation classes of points, decapsulation opens whenever one chain secret matches a component; the model is tied to the code by an exhaustive small-scope comparison of the rights of user keys / encapsulations and by comparing the real keygen+encaps+decaps verdict with the name-level cover relation of the Lean spec, in both cryptographic configurations",
         "level_note": LEAVES + "; group algebra abstracted (C01Alg); structures up to 2 (quick) / 3 (thorough) dimensions x 3 attributes in the correspondence, theorems unbounded",
     },
     "C02": {
-        "modules": ["CC.Props.C02"], "campaigns": [hist("C02", BOTH)],
+        "modules": ["CC.Props.C02", "CC.Props.NonVacuity"], "campaigns": [hist("C02", BOTH)],
         "level_text": "Lean theorems: decapsulation never returns a value other than the encapsulated secret and returns none when no chain secret matches a component (foreign keys included); correspondence as C01 with the direction `not covered => None` checked on the real code against the Lean cover relation",
         "level_note": LEAVES + "; excludes 2^-128 tag collisions",
     },
@@ -44,16 +44,16 @@ HIST_NOTE = LEAVES + "; histories of <= 20 (quick) / 40 (thorough) operations on
 def _hist_prop(pid, modules, text, note=HIST_NOTE, configs=ONE):
     PROPS[pid] = {"modules": modules, "campaigns": [hist(pid, configs)], "level_text": text, "level_note": note}
 
-_hist_prop("C03", ["CC.Props.C03"],
+_hist_prop("C03", ["CC.Props.C03", "CC.Props.NonVacuity"],
     "Lean theorems: along every history of the seven edit operations identifiers stay below a never-decreasing counter and a new attribute receives an identifier strictly greater than any ever in use (never reissued, deleted holders included); rename / disable keep identifier, hint and position; rights with different id sets differ. Correspondence: random edit/update/keygen/refresh/encaps histories (delete-then-add, rename chains, dimension delete/re-add) with structure dumps, key dumps and the full decaps matrix compared between the real API and the model")
-_hist_prop("C04", ["CC.Props.C04"],
+_hist_prop("C04", ["CC.Props.C04", "CC.Props.NonVacuity"],
     "Lean theorems: the repaired revision iterator reaches every secret of every chain; rekey prepends a fresh token; a key with only older tokens cannot open an encapsulation for newer ones; a chain refreshed with keep starts with the master's newest secret and has the closed form of refreshChain_spec under the contiguity invariants. Correspondence: histories with partial rekeys, refresh with both flags, encapsulation under stale public keys; chain contents and decaps matrices compared")
-_hist_prop("C05", ["CC.Props.C05"],
+_hist_prop("C05", ["CC.Props.C05", "CC.Props.NonVacuity"],
     "Lean theorems: prune keeps exactly the newest secret of a pruned right and leaves others untouched; every secret of a key refreshed with keep is a current master secret of that right, rights gone from the master key are dropped; without keep exactly the newest secret; a key holding only master secrets cannot open an encapsulation made under removed secrets. Correspondence: rekey/prune/delete/update/refresh histories, chain contents and decaps matrices compared")
-_hist_prop("C06", ["CC.Props.C06"],
+_hist_prop("C06", ["CC.Props.C06", "CC.Props.NonVacuity"],
     "Lean theorems: rekey and prune never change the activation flag of the newest secret; the public key publishes a right only if its newest secret is activated; a deactivated right has no entry in any derived public key; encapsulation fails when a targeted right is unpublished; update_msk sets the flag from the structure; over every history: a disabled identifier stays disabled through every structure edit (no enable operation, identifiers never reissued), a successful update_msk deactivates every right containing it, no later operation re-activates one, so in any world reachable after disable + update encapsulation fails for every target set containing such a right (disabled_never_encryptable). Correspondence: histories with disable followed by update/rekey/prune/mpk re-derivation/serialisation round-trips, encaps ok/err under every public key compared")
-_hist_prop("C09", ["CC.Props.C09"],
-    "Lean theorems characterising, for all states and arguments, exactly when each structure edit, rekey, update_msk and key generation fail (iff statements). Correspondence: histories with 35% malformed arguments (unknown/duplicate/stale names, same-dimension clauses, rollbacks of the master key); ok/err of every call compared with the model")
+_hist_prop("C09", ["CC.Props.C09", "CC.Props.NonVacuity"],
+    "Lean theorems characterising, for all states and arguments, exactly when each structure edit, rekey, update_msk, key generation, encapsulation and refresh fail (iff statements: encaps_ok_iff, refresh_ok_iff); over every history an issued key stays refreshable with either flag. Correspondence: histories with 35% malformed arguments (unknown/duplicate/stale names, same-dimension clauses, rollbacks of the master key); ok/err of every call compared with the model")
 _hist_prop("C10", ["CC.Props.C10"],
     "Lean theorems over models that return the state the code leaves behind on each path: a failing update_msk, rekey, key generation or refresh returns the master key (and the user key) unchanged - the in-loop error branches are unreachable once the up-front validation passed. Correspondence: histories with 35% malformed arguments; serialised master and user keys dumped after every failing call and compared")
 _hist_prop("C11", ["CC.Props.C11"],
